@@ -762,6 +762,7 @@ func runC05(r *harness.Run) {
 	runPinned(r, "C05")
 	reentrantFamily(r, "C05")
 	overflowHistory(r)
+	overflowHandlerWork(r)
 }
 
 // c05GoResume — the Go-side Resume as a protected entry point: a coroutine that fails (error value
